@@ -142,6 +142,8 @@ def _ops():
     add("P2.extend_query(MD)", lambda p: out_url(p["P2"].extend_query(p["MD"])))
     add("P2.without_query_params('k')", lambda p: out_url(p["P2"].without_query_params("k")))
     add("P2 / 'x y'", lambda p: out_url(p["P2"] / "x y"))
+    add("P2.joinpath() (no arguments)", lambda p: out_url(p["P2"].joinpath()))
+    add("P0.joinpath('')", lambda p: out_url(p["P0"].joinpath("")))
     add("P2.parent", lambda p: out_url(p["P2"].parent))
     add("P0.join(URL('../y'))", lambda p: out_url(p["P0"].join(impl.URL("../y"))))
     # equal-but-different operands ('' vs '/' path under an authority compare equal): anything keyed by URL equality confuses them
